@@ -385,6 +385,74 @@ static void plan_c10(void)
     }
 }
 
+/* make the last four bytes of blk[0..n) such that the CRC of the block is `target` (the CRCs are affine over GF(2): solve a 32x32 system) */
+static int force_crc(uint8_t *blk, size_t n, uint32_t target, int legacy)
+{
+    if (n < 4) return -1;
+    memset(blk + n - 4, 0, 4);
+    uint32_t c0 = legacy ? crc_legacy(blk, n) : crc_std(blk, n), col[32], want = target ^ c0;
+    for (int i = 0; i < 32; i++) { blk[n - 4 + (i >> 3)] = (uint8_t)(1u << (i & 7)); col[i] = (legacy ? crc_legacy(blk, n) : crc_std(blk, n)) ^ c0; blk[n - 4 + (i >> 3)] = 0; }
+    /* Gaussian elimination over GF(2): rows = output bits, unknowns = 32 input bits */
+    uint64_t row[32];                       /* low 32 bits: coefficients, bit 32: right-hand side */
+    for (int r = 0; r < 32; r++) { uint64_t v = 0; for (int i = 0; i < 32; i++) if (col[i] >> r & 1) v |= 1ull << i; if (want >> r & 1) v |= 1ull << 32; row[r] = v; }
+    int piv_of[32]; for (int i = 0; i < 32; i++) piv_of[i] = -1;
+    int rr = 0;
+    for (int c = 0; c < 32 && rr < 32; c++) {
+        int p2 = -1; for (int r = rr; r < 32; r++) if (row[r] >> c & 1) { p2 = r; break; }
+        if (p2 < 0) continue;
+        uint64_t t = row[p2]; row[p2] = row[rr]; row[rr] = t;
+        for (int r = 0; r < 32; r++) if (r != rr && (row[r] >> c & 1)) row[r] ^= row[rr];
+        piv_of[c] = rr++;
+    }
+    uint32_t x = 0;
+    for (int c = 0; c < 32; c++) if (piv_of[c] >= 0 && (row[piv_of[c]] >> 32 & 1)) x |= 1u << c;
+    for (int r = rr; r < 32; r++) if (row[r] >> 32 & 1) return -1;
+    put_le32(blk + n - 4, x);
+    return ((legacy ? crc_legacy(blk, n) : crc_std(blk, n)) == target) ? 0 : -1;
+}
+/* payloads whose checksum is a "special" value (0, all ones): a stored checksum of 0 is a legal CRC, not "absent" */
+static void plan_c10_special(void)
+{
+    static const struct shape cfgs[] = { { EC_BACKEND_LIBERASURECODE_RS_VAND, 4, 2, 2 }, { EC_BACKEND_FLAT_XOR_HD, 3, 3, 3 }, { EC_BACKEND_ISA_L_RS_VAND, 2, 2, 2 } };
+    static const uint32_t targets[] = { 0, 0xffffffffu, 1, 0x80000000u };
+    for (int ci = 0; ci < 3; ci++) for (int legacy = 0; legacy < 2; legacy++) for (int ti = 0; ti < 4; ti++) {
+        struct shape sh = cfgs[ci]; uint64_t bs = 16, len = (uint64_t)sh.k * bs;
+        if (!vh_group_begin("F/C10/special-crc/%s/k%dm%d/%s/%08x", be_name(sh.be), sh.k, sh.m, legacy ? "historical" : "standard", targets[ti])) continue;
+        /* craft the input first (block 0 = the payload of data fragment 0), then encode it through a stripe opened on that buffer */
+        struct stripe s;
+        if (stripe_open(&s, sh, CHKSUM_CRC32, len, PAT_RAMP, legacy ? "1" : NULL) == 0 && s.flen == WIRE_HDR + bs) {
+            uint8_t blk[16]; memcpy(blk, s.data, 16);
+            if (force_crc(blk, 16, targets[ti], legacy) == 0) {
+                gbuf_writable(&s.gdata); memcpy(s.data, blk, 16); gbuf_readonly(&s.gdata);
+                char **ed = NULL, **ep = NULL; uint64_t fl = 0; vh_op("liberasurecode_encode"); vh_transitions(1);
+                int rc = liberasurecode_encode(s.desc, (char *)s.data, len, &ed, &ep, &fl);
+                if (rc != 0 || fl != s.flen) vh_violation("encode-failed", "encode of the crafted buffer returned %d", rc);
+                else {
+                    uint8_t *w = malloc(fl); memcpy(w, ed[0], fl);
+                    if (vh_case_begin("written")) { vh_nontrivial(); if (stored_crc(w) != targets[ti]) vh_violation("wrong-checksum-written", "payload crafted to have %s CRC 0x%08x, stored 0x%08x", legacy ? "historical" : "standard", targets[ti], stored_crc(w)); }
+                    for (int reader = 0; reader < 2; reader++) {
+                        set_env(reader ? (legacy ? NULL : "1") : (legacy ? "1" : NULL));
+                        if (vh_case_begin("reader%d/intact", reader)) { vh_nontrivial(); c10_verdict(&s, slot_put(0, w, fl), "intact, special checksum value"); c10_twin_verdict(&s, w, "intact, special checksum value"); }
+                        for (uint32_t bit = 0; bit < bs * 8; bit++) {
+                            if (!vh_case_begin("reader%d/pbit%u", reader, bit)) continue;
+                            vh_nontrivial();
+                            w[WIRE_HDR + (bit >> 3)] ^= (uint8_t)(1u << (bit & 7));
+                            c10_verdict(&s, slot_put(0, w, fl), "payload bit flipped under a special checksum value");
+                            if (bit % 8 == 0) c10_twin_verdict(&s, w, "payload bit flipped under a special checksum value");
+                            w[WIRE_HDR + (bit >> 3)] ^= (uint8_t)(1u << (bit & 7));
+                        }
+                    }
+                    set_env(legacy ? "1" : NULL);
+                    free(w);
+                    liberasurecode_encode_cleanup(s.desc, ed, ep);
+                }
+            } else vh_violation("harness", "cannot craft a block with %s CRC 0x%08x", legacy ? "historical" : "standard", targets[ti]);
+        }
+        stripe_close(&s, 0);
+        vh_group_end();
+    }
+}
+
 /* ---------------------------------------------------------------- C11 */
 static void c11_compare(struct stripe *s, int fi, uint8_t *nat, uint8_t *tw, const char *name)
 {
@@ -422,10 +490,12 @@ static void plan_c11(void)
 {
     int thorough = !strcmp(vh_tier(), "thorough");
     uint64_t lens[] = { 37, 0, 1, 1000 };
-    for (int ci = 0; ci < NCOVER; ci++) for (int ct = CHKSUM_NONE; ct <= CHKSUM_CRC32; ct++) for (int li = 0; li < (thorough ? 4 : 3); li++) for (int e = 0; e < 2; e++) {
+    /* checksum types NONE, CRC32 and MD5 (the library accepts the third and stores the type; it computes no MD5) */
+    for (int ci = 0; ci < NCOVER; ci++) for (int ct = CHKSUM_NONE; ct <= CHKSUM_MD5; ct++) for (int li = 0; li < (thorough ? 4 : 3); li++) for (int e = 0; e < 2; e++) {
         struct shape sh = COVER[ci];
         if (sh.be == EC_BACKEND_NULL && (li || e)) continue;
-        if (e && ct == CHKSUM_NONE) continue;
+        if (e && ct != CHKSUM_CRC32) continue;
+        if (ct == CHKSUM_MD5 && li) continue;
         if (!vh_group_begin("F/C11/%s/k%dm%dhd%d/ct%d/len%lu/env%s", be_name(sh.be), sh.k, sh.m, sh.hd, ct, (unsigned long)lens[li], ENVS[e] ? ENVS[e] : "-")) continue;
         struct stripe s;
         if (stripe_open(&s, sh, ct, lens[li], PAT_RAMP, ENVS[e]) == 0) {
@@ -437,6 +507,14 @@ static void plan_c11(void)
                     vh_nontrivial();
                     memcpy(nat, enc_frag(&s, fi), s.flen); memcpy(tw, nat, s.flen); wire_byteswap_twin(tw);
                     c11_compare(&s, fi, nat, tw, "intact");
+                    /* stripe verification is handed the opposite-endian fragment on a read-only page: whatever its verdict, it must not
+                     * write to the fragment, and the fragment must read exactly as before afterwards */
+                    uint8_t *pt = slot_put(1, tw, s.flen); char *one[1] = { (char *)pt };
+                    vh_op("liberasurecode_verify_stripe_metadata"); vh_transitions(3);
+                    int v1 = liberasurecode_verify_stripe_metadata(s.desc, one, 1), v2 = liberasurecode_verify_stripe_metadata(s.desc, one, 1);
+                    if (v1 != v2) vh_violation("twin-verdict-unstable", "f%d: two successive stripe verifications of the same opposite-endian fragment returned %d and %d", fi, v1, v2);
+                    if (memcmp(pt, tw, s.flen)) vh_violation("input-modified", "f%d: stripe verification modified the opposite-endian fragment", fi);
+                    c11_compare(&s, fi, nat, tw, "intact, after stripe verification");
                 }
                 /* writers older than 1.2.0 (no metadata checksum), incl. versions with a non-zero revision byte: both byte orders must be read alike */
                 { static const uint32_t oldv[] = { 0x010000, 0x010009, 0x010100, 0x010101, 0x0101ff, 0x000001, 0x0100ff };
@@ -762,7 +840,7 @@ static void engine(void)
     init_liberasurecode_rs_vand_pin();
     const char *p = vh_plan();
     if (!strcmp(p, "c09")) plan_c09();
-    else if (!strcmp(p, "c10")) plan_c10();
+    else if (!strcmp(p, "c10")) { plan_c10(); plan_c10_special(); }
     else if (!strcmp(p, "c11")) plan_c11();
     else if (!strcmp(p, "c12")) plan_c12();
     else if (!strcmp(p, "c20")) plan_c20();
